@@ -9,6 +9,7 @@ use stun_rs::{
 
 pub mod c01;
 pub mod c02;
+pub mod c03;
 pub mod c04;
 pub mod c09;
 pub mod c14;
@@ -21,6 +22,7 @@ pub fn run(prop: &str, ctx: &mut Ctx) -> Result<(), String> {
     match prop {
         "C01" => c01::run(ctx),
         "C02" => c02::run(ctx),
+        "C03" => c03::run(ctx),
         "C04" => c04::run(ctx),
         "C09" => c09::run(ctx),
         "C14" => c14::run(ctx),
